@@ -12,6 +12,11 @@ Theorem C19_every_response_has_csp : forall dc w p ae,
   csp (serve dc w p ae) <> [] /\ Forall (fun v => v <> []) (csp (serve dc w p ae)).
 Proof. exact serve_csp. Qed.
 
+(* ... and so does the response of any other handler of the router, whatever it returns: the
+   if_not_present layer fills in the default policy *)
+Theorem C19_any_handler_has_csp : forall r, csp (csp_layer r) <> [].
+Proof. exact csp_layer_nonempty. Qed.
+
 (* (2)(3)(4) A response that carries inscription data (on any route) is about the requested
    inscription [id]: its source is [id] itself or, except on /r/undelegated-content, the inscription
    [id] delegates to (one level: the source's own delegate field is not followed), neither hidden.
